@@ -75,8 +75,6 @@ func (r *rotRun) snap() {
 	}
 }
 
-const rotDeadline = 15 * time.Second
-
 func coqFileset(f fileset) string {
 	return fmt.Sprintf("(%s, %s, %s)", hx.CoqZ(f[0]), hx.CoqZ(f[1]), hx.CoqZ(f[2]))
 }
@@ -125,25 +123,7 @@ func c19RunRot(ctx *core.Ctx, in c19Input) {
 			if err != nil {
 				return nil, err
 			}
-			if !o.Ok {
-				switch o.Fail {
-				case "empty":
-					return nil, nil
-				case "noid":
-					leaf, ierr := ca.issue(pub, idx, time.Unix(0, now).UTC(), time.Unix(0, now).UTC().Add(time.Hour), false)
-					if ierr != nil {
-						return nil, ierr
-					}
-					return []*x509.Certificate{leaf, ca.cert}, nil
-				default:
-					return nil, errIssuer
-				}
-			}
-			leaf, ierr := ca.issue(pub, idx, time.Unix(0, now+o.Dnb).UTC(), time.Unix(0, now+o.Dna).UTC(), true)
-			if ierr != nil {
-				return nil, ierr
-			}
-			return []*x509.Certificate{leaf, ca.cert}, nil
+			return answer(ca, ta, in.UseDir, pub, idx, now, o)
 		},
 	}
 	if in.UseDir {
@@ -181,7 +161,7 @@ func c19RunRot(ctx *core.Ctx, in c19Input) {
 	// settle: deliver every due timer; return when the loop is parked on a timer that is not
 	// due or Run has returned.
 	settle := func() {
-		end := time.Now().Add(rotDeadline)
+		end := time.Now().Add(livenessDeadline())
 		for spin := 0; ; spin++ {
 			if runReturned() {
 				return
@@ -198,6 +178,9 @@ func c19RunRot(ctx *core.Ctx, in c19Input) {
 				}
 			}
 			if time.Now().After(end) {
+				if !stalled {
+					noteHang()
+				}
 				stalled = true
 				return
 			}
@@ -217,15 +200,27 @@ func c19RunRot(ctx *core.Ctx, in c19Input) {
 			svid *x509svid.SVID
 			err  error
 		}
-		ch := make(chan res, 1)
-		go func() {
-			sv, err := src.GetX509SVID()
-			ch <- res{sv, err}
-		}()
 		served := [2]int64{-1, -1}
+		ch := make(chan res, 1)
+		var expired <-chan time.Time
+		if getHung {
+			// an earlier call of this run never returned: one hung call is the finding, do not
+			// pay for another deadline at every point
+			closed := make(chan time.Time)
+			close(closed)
+			expired = closed
+		} else {
+			go func() {
+				sv, err := src.GetX509SVID()
+				ch <- res{sv, err}
+			}()
+			expired = time.After(livenessDeadline())
+		}
 		select {
 		case g := <-ch:
-			if g.err == nil && g.svid != nil && len(g.svid.Certificates) > 0 {
+			if g.err == nil && (g.svid == nil || len(g.svid.Certificates) == 0) {
+				served = [2]int64{-5, -5} // neither an SVID nor an error
+			} else if g.err == nil {
 				served[0] = certID(g.svid.Certificates[0])
 				served[1] = -4
 				if ek, ok := g.svid.PrivateKey.(*ecdsa.PrivateKey); ok {
@@ -234,7 +229,10 @@ func c19RunRot(ctx *core.Ctx, in c19Input) {
 					r.mu.Unlock()
 				}
 			}
-		case <-time.After(rotDeadline):
+		case <-expired:
+			if !getHung {
+				noteHang()
+			}
 			getHung = true
 			served = [2]int64{-9, -9}
 		}
